@@ -50,6 +50,8 @@ var (
 	// it gets the ids of the runnable threads (the current one first when
 	// canStay) and returns an index into them.
 	Picker func(canStay bool, ids []int) int
+	// OnSpin, when set, is told which thread was forced to hand over (priority schedulers demote it).
+	OnSpin func(id int)
 	// Fine enables the statement-level scheduling points (Plain) of the hunt build.
 	Fine        bool
 	atomicDepth int
@@ -186,6 +188,9 @@ func pick(me *thread) *thread {
 			// scheduled is probably spinning on a flag another thread holds; hand over
 			// (not counted as a preemption; recorded so that replays are exact).
 			consecutive = 0
+			if OnSpin != nil {
+				OnSpin(me.id)
+			}
 			Trace = append(Trace, Choice{1, 2})
 			Sched = append(Sched, opts[1].id)
 			lastRun = opts[1].id
